@@ -9,7 +9,7 @@ from ..core import AnalysisError, Report
 from ..linexpr import Env, py_ir, to_lin
 from ..pycfg import build_py_cfg, run_typestate
 from ..pysubst import method_outcomes
-from ..pyfacts import Repo, canonical_fn, calls_in_order, cc, cn, inline_module_constants, inline_pure_temps, clone, eval_int_expr, calls, dotted, norm, raise_guards, raised_class, walk_no_nested
+from ..pyfacts import Repo, resolve_names, expand_private_calls, canonical_fn, calls_in_order, cc, cn, inline_module_constants, inline_pure_temps, clone, eval_int_expr, calls, dotted, norm, raise_guards, raised_class, walk_no_nested
 
 ASM = 'flipjump/assembler/assembler.py'
 PRE = 'flipjump/assembler/preprocessor.py'
@@ -252,7 +252,8 @@ def rule_addr_model(rep: Report, repo: Repo) -> None:
               + (f'{len(wrong)} wrong, e.g. {wrong[0]}' if wrong else '1632 (index, alignment, width) cases agree'), f'{PRE}:{al.lineno}',
               expected='(-k) mod alignment for every alignment >= 1')
     env_al = Env({'self.memory_width': W, 'op_size': py_ir(ast.parse('2 * self.memory_width', mode='eval').body)})
-    pre_pad = [lx.lin_show(to_lin(py_ir(v), env_al)) for op, v in _self_updates(al, 'curr_address') if op == '+=']
+    # the advance, read through a local that merely names it (the two quantities of the model stay as names)
+    pre_pad = [lx.lin_show(to_lin(py_ir(resolve_names(al, v, keep=('ops_to_pad', 'op_size'))), env_al)) for op, v in _self_updates(al, 'curr_address') if op == '+=']
     pad_arg = [norm(c.args[0]) for c in calls(al) if dotted(c.func) == 'Padding']
     ip = repo.func(ASM, 'BinaryData.insert_padding')
     asm_pad = [lx.lin_show(to_lin(py_ir(v), aenv)) for op, v in _self_updates(ip, 'current_address') if op == '+=']
@@ -584,7 +585,7 @@ def rule_validate_first(rep: Report, repo: Repo) -> None:
     # <value> % memory_width == 0 is known (enclosing / preceding tests, a preceding test that ends in the NoReturn error helper)
     from ..excflow import GuardFacts, dominating_guards
     for q in ('get_next_segment_start', 'get_reserved_bits_size'):
-        fn = repo.func(PRE, q)
+        fn = expand_private_calls(repo, PRE, repo.func(PRE, q))          # a private `assert aligned` helper reads as its test
         rets = [r for r in walk_no_nested(fn) if isinstance(r, ast.Return) and r.value is not None]
         okv = bool(rets)
         why = []
